@@ -272,7 +272,7 @@ def gen_edits(g, info, n, sql_benign=False):
             g.emit(Op(50, t, c))
             info['columns'][t] = cols + [c]
         elif kind == 'addidx' and cols:
-            ix = g.emit(Op(13, V('subjects', [(1, r.choice(cols))]), None, r.random() < 0.5, None, False, NONE, None))
+            ix = g.emit(Op(13, V('subjects', [(1, r.choice(cols))]), 'ix%d' % len(g.ops), r.random() < 0.5, None, False, NONE, None))   # unique name: an index equal to an existing one would make delete_index hit D23 (covered by C09)
             g.emit(Op(52, t, ix))
             info['indexes'][t] = info['indexes'][t] + [ix]
         elif kind == 'delidx' and info['indexes'][t]:
